@@ -481,17 +481,34 @@ def bool_facts(b, op, truth, depth=0):
 def _phi_facts(b, op, truth, depth):
     if op['k'] not in ('copy', 'move') or op['place']['proj']:
         return []
-    local = op['place']['local']
-    for _ in range(8):
-        ds = b.assigns().get(local, [])
-        if len(ds) == 1 and not ds[0][4] and ds[0][2] == 'stmt' and ds[0][3]['k'] == 'use' and ds[0][3]['op']['k'] in ('copy', 'move') \
-                and not ds[0][3]['op']['place']['proj']:
-            local = ds[0][3]['op']['place']['local']
-        else:
-            break
-    defs = [x for x in b.assigns().get(local, []) if not x[4]]
-    if len(defs) != len(b.assigns().get(local, [])):
+    def leaf_defs(local, depth=0, seen=None):
+        # definitions of a plain local, looking through whole-value copies (`_3 = move _18` in several blocks after jump threading)
+        seen = seen if seen is not None else set()
+        if depth > 6:
+            return None
+        if local in seen:
+            return []   # already expanded through another copy
+        seen.add(local)
+        out = []
+        for d in b.assigns().get(local, []):
+            if d[4]:
+                return None
+            if d[2] == 'stmt' and d[3]['k'] == 'use' and d[3]['op']['k'] in ('copy', 'move') and not d[3]['op']['place']['proj'] \
+                    and not (1 <= d[3]['op']['place']['local'] <= b.arg_count):
+                r = leaf_defs(d[3]['op']['place']['local'], depth + 1, seen)
+                if r is None:
+                    return None
+                out.extend(r)
+            else:
+                out.append(d)
+        return out
+    defs = leaf_defs(op['place']['local'])
+    if not defs:
         return []
+    uniq = {}
+    for d in defs:
+        uniq[(d[0], d[1])] = d
+    defs = list(uniq.values())
     consts, others = [], []
     for (bb, i, kind, rv, proj) in defs:
         if kind == 'stmt' and rv['k'] == 'use' and rv['op']['k'] == 'const' and 'int' in rv['op']['c']:
